@@ -1279,10 +1279,18 @@ func reachesBefore(a, b ssa.Instruction) bool {
 	if a.Block().Dominates(b.Block()) {
 		return true
 	}
-	// conditional append (only if not yet contained) that joins before b: the edge exists either way
+	// conditional append (only if not yet contained) that joins before b: the edge exists either way –
+	// but only when the skipping condition is exactly "already contained"
 	for _, s := range a.Block().Succs {
 		if s.Dominates(b.Block()) || s == b.Block() {
-			return true
+			if idom := a.Block().Idom(); idom != nil {
+				c, _ := condOf(idom)
+				if call, ok := c.(*ssa.Call); ok {
+					if callee := call.Call.StaticCallee(); callee != nil && strings.HasPrefix(callee.String(), "slices.Contains") {
+						return true
+					}
+				}
+			}
 		}
 	}
 	return false
